@@ -77,15 +77,24 @@ def _calls(fam, fm, groups_labels):
             out.append((nm, lambda yt, yp, w, sf, nm=nm: getattr(fm, nm)(yt, yp, **({} if w is None else {"sample_weight": w}))))
         out.append(("selection_rate", lambda yt, yp, w, sf: fm.selection_rate(yt, yp, **({} if w is None else {"sample_weight": w}))))
         return out
+    import pandas as pd
+
+    def ser(w):
+        """weights travel as a pandas Series whose index labels are NOT 0..n-1 in order (e.g. a column of a shuffled frame): rows are matched by position"""
+        if w is None:
+            return None
+        return pd.Series(list(w), index=list(range(len(w)))[::-1], dtype=object)
+
     if fam == "frame":
         def frame(metric, what):
             def f(yt, yp, w, sf):
+                w = ser(w)
                 mf = fm.MetricFrame(metrics=metric, y_true=yt, y_pred=yp, sensitive_features=sf, sample_params=None if w is None else {"sample_weight": w})
                 return mf.overall if what == "overall" else dict(mf.by_group)
             return f
         return [("MetricFrame(selection_rate).by_group", frame(fm.selection_rate, "by_group")), ("MetricFrame(selection_rate).overall", frame(fm.selection_rate, "overall")),
                 ("MetricFrame(true_positive_rate).by_group", frame(fm.true_positive_rate, "by_group"))]
-    mk = lambda fn, **kw: (lambda yt, yp, w, sf: fn(yt, yp, sensitive_features=sf, **kw, **({} if w is None else {"sample_weight": w})))
+    mk = lambda fn, **kw: (lambda yt, yp, w, sf: fn(yt, yp, sensitive_features=sf, **kw, **({} if w is None else {"sample_weight": ser(w)})))
     return [("demographic_parity_difference", mk(fm.demographic_parity_difference)), ("demographic_parity_ratio", mk(fm.demographic_parity_ratio, method="to_overall")),
             ("equalized_odds_difference", mk(fm.equalized_odds_difference)), ("equal_opportunity_ratio", mk(fm.equal_opportunity_ratio))]
 
